@@ -1483,3 +1483,16 @@ Definition gop_timely (o : gop) : bool :=
   | GNtWriteAt _ _ _ s => sel_timely s
   | _ => true
   end.
+
+(* ---- 13d. the framework's own loop ------------------------------------ *)
+
+(* MagicRobot runs the user's code location by location: one PASS of the
+   control loop is teleopPeriodic(), then every component's execute() (in
+   _enabled_periodic), then the @feedback getters and periodic methods (in
+   _do_periodics); between two passes the dashboard and the harness act.  A
+   pass is the list of its locations, a location the operations the code there
+   performs (attribute reads / writes of any component, dashboard updates
+   arriving meanwhile, the clock moving on).  Nothing in tunable.__get__ /
+   __set__ knows where it is called from: the history is the concatenation. *)
+Definition loop_history (passes : list (list (list gop))) : list gop :=
+  concat (map (@concat gop) passes).
